@@ -414,7 +414,7 @@ def entry_check(c_exe, lean_exe):
     rc, o, e = vlib.run_driver(c_exe, "", args=["entry"])
     problems, n, sample = [], 0, None
     if rc != 0:
-        return 0, ["ctxdrv entry failed rc=%d: %s %s" % (rc, o[-300:], e[-1200:])], None
+        return 0, ["ctxdrv entry failed rc=%d (the real first entry / return crashed): %s %s" % (rc, o[-300:], e[-1200:])], None
     m = Model(lean_exe)
     try:
         for line in o.splitlines():
